@@ -179,13 +179,9 @@ fn one_arm64(acc: &mut Acc, a: u64, tramp: Option<u64>, fake: u64, boolv: Option
             let ours = |x: u64| (x >= a && x < a + 12) || owned.iter().any(|&(s, l)| x >= s && x < s + l);
             let run = vkit::a64::run_to(a, &mem, &ours, 12, if boolv.is_none() { Some(fake) } else { None });
             if collect_words {
-                for k in 0..3 {
-                    acc.word64(u32::from_le_bytes(unsafe { arena::read(a + 4 * k, 4) }.try_into().unwrap()));
-                }
-                if let Some(&(t, _)) = owned.first() {
-                    for k in 0..5 {
-                        acc.word64(u32::from_le_bytes(unsafe { arena::read(t + 4 * k, 4) }.try_into().unwrap()));
-                    }
+                // only executed instruction words go to the llvm-mc cross-check (a trampoline may hold literal data)
+                for w in &run.exec_words {
+                    acc.word64(*w);
                 }
             }
             use vkit::a64::Stop;
